@@ -240,6 +240,12 @@ def build(rng, pattern, cell_cls, atol, n_copies=2, crossings=None, poses=None, 
     cell_given = cell if not int_cell else ([[int(v) for v in row] for row in cell] if int_cell == 1 else np.array(cell, dtype=int))
     atoms = Atoms(elements=[elements[i] for i in order], positions=positions[order], cell=cell_given,
                   charges=[1000.0 + i / 64.0 for i in range(n)], groups=[int(x) for x in rng.integers(0, 3, n)])
+    if rng.integers(5) == 0:
+        # the type tables end in an entry that no atom uses (a file that declares more types than it uses, a structure from which
+        # every atom of its last type was deleted)
+        atoms.atom_type_elements = [str(e) for e in atoms.atom_type_elements] + ["Rn"]
+        atoms.atom_type_labels = [str(e) for e in atoms.atom_type_labels] + ["Rn_unused"]
+        atoms.atom_type_masses = [float(m) for m in atoms.atom_type_masses] + [222.0]
     if narrow:
         atoms.atom_type_elements = np.array([str(e) for e in atoms.atom_type_elements])
         atoms.atom_type_labels = np.array([str(e) for e in atoms.atom_type_labels])
